@@ -126,6 +126,25 @@ class HeapMaintenance(Harness):
                                     "sweep_market": False})
         return out
 
+    def _check_best(self, g, m, recs, is_buy):
+        """C08: the best quote describes the current book (the live order that ranks first)."""
+        live_ = [r for r in recs if not r["dead"] and r["filled"] != r["volume"]]
+        got = m.get_best_buy_price() if is_buy else m.get_best_sell_price()
+        if not live_:
+            g.require(got is None, "C08.best-price")
+            return
+        b = live_[0]
+        for r in live_[1:]:
+            if bool(ranks_before(r, b)):
+                b = r
+        if b["is_market"]:
+            g.require(got is None, "C08.best-price")
+        else:
+            g.require(got is not None and got == b["price"], "C08.best-price",
+                      "best quote differs from the best live order's price")
+        g.note("best-checked")
+        g.note("nontrivial")
+
     def _round(self, g, m, recs, is_buy, tag, market, volume=None):
         """submit a counter order and run one real round; check the fills against the ranking."""
         live = [r for r in recs if not r["dead"] and r["left"] is not None]
@@ -207,6 +226,18 @@ class HeapMaintenance(Harness):
             elif op == "R":
                 # deep books: a round that takes exactly one lot (touches only the top of the book)
                 self._round(g, m, recs, is_buy, f"r{k}", market=False, volume=1 if case["deep"] else None)
+            elif op == "CB":
+                # cancel the order that ranks first among the live ones (by the reference ranking)
+                live_ = [(j, r) for j, r in enumerate(recs) if not r["dead"]]
+                if live_:
+                    bj = live_[0][0]
+                    for j, r in live_[1:]:
+                        if bool(ranks_before(r, recs[bj])):
+                            bj = j
+                    m._cancel_order(Cancel(order=orders[bj]))
+                    m._execution()
+                    recs[bj]["dead"] = True
+                    g.note("cancel-best")
             else:
                 i = op[1]
                 best = m.buy_order_book.get_best_order() if is_buy else m.sell_order_book.get_best_order()
@@ -215,6 +246,10 @@ class HeapMaintenance(Harness):
                 m._cancel_order(Cancel(order=orders[i]))
                 m._execution()
                 recs[i]["dead"] = True
+            if "C08" in self.props:
+                self._check_best(g, m, recs, is_buy)
+        if "C08" in self.props:
+            return
         self._round(g, m, recs, is_buy, "x", market=case.get("sweep_market", False),
                     volume=(K if case["ops"] != ["R"] else 2 * K - 1) if case["deep"] else None)
 
@@ -237,3 +272,20 @@ class C01_HeapMaintenance(HeapMaintenance):
     props = ("C01",)
     wide_thorough = False     # the wide shallow space is explored under C02; C01 adds the deep books only
     reach = ("nontrivial", "cancel-nonbest")
+
+
+class C08_HeapMaintenance(HeapMaintenance):
+    """best bid / ask after cancels and expiries re-shaped the book (deep books in the thorough tier)"""
+    props = ("C08",)
+    wide_thorough = False
+    reach = ("best-checked", "cancel-nonbest")
+
+    def cases(self, tier):
+        out = [c for c in super().cases(tier) if not c["sweep_market"] and "R" not in c["ops"] and not c["deep"]]
+        if tier == "thorough":
+            for is_buy in (True, False):
+                for K in (6, 7):
+                    for i in range(K):
+                        out.append({"is_buy": is_buy, "K": K, "kinds": "0" * K, "ops": [["C", i], "CB", "CB"], "deep": True,
+                                    "sweep_market": False})
+        return out
